@@ -51,6 +51,8 @@ SUBSCRIPT_STORE_TYPES = frozenset({"dict", "Namespace", "list", "other"})
 STRKEY_STORE_TYPES = frozenset({"dict", "Namespace", "other"})
 
 DECLARED_DEFAULT = "g:declared default of an action (action.default)"
+# fields of a class spec / namespace that hold an immutable value by construction
+IMMUTABLE_FIELDS = {"class_path"}
 
 Val = FrozenSet[Tuple[str, str]]
 EMPTY: Val = frozenset()
@@ -234,6 +236,8 @@ class Effects:
             if isinstance(e, ast.Subscript):
                 if isinstance(e.slice, ast.Slice):
                     return shallow(ev(e.value, st))
+                if isinstance(e.slice, ast.Constant) and e.slice.value in IMMUTABLE_FIELDS:
+                    return EMPTY  # a string by construction (is_subclass_spec / import paths): nothing to alias
                 if isinstance(e.value, ast.Name) and isinstance(e.slice, ast.Constant) and isinstance(e.slice.value, str):
                     fk = ("f", e.value.id, e.slice.value)
                     if fk in st:
